@@ -301,3 +301,66 @@ def rule_memo_sound(ctx: Ctx, rels: List[str]) -> None:
     if found == 0:
         ctx.ok_abstract("memo.sound", f"no result cache (module-level / self-held container answering a call, or caching decorator) in {len(rels)} module(s), "
                                       f"{scanned} functions scanned")
+
+
+# --------------------------------------------------------------------------- falsy.zero
+
+
+def rule_falsy_zero(ctx: Ctx, rels: List[str]) -> None:
+    """falsy.zero: `p or default` / `if not p:` on a parameter that is used as a number (an index, position, seed, count: it is
+    compared, added, used as a subscript or handed to range/randint) treats the legitimate value 0 as "not given": position 0, seed 0
+    and outcome 0 silently become the default.  (`p is None` is the test that means "not given".)"""
+    repo = ctx.repo
+    scanned = hits = 0
+    for rel in rels:
+        m = repo.module(rel)
+        for fn in [f for f in ast.walk(m.tree) if isinstance(f, (ast.FunctionDef, ast.AsyncFunctionDef))]:
+            scanned += 1
+            params = {a.arg for a in fn.args.posonlyargs + fn.args.args + fn.args.kwonlyargs if a.arg not in ("self", "cls")}
+            if not params:
+                continue
+            numeric: Set[str] = set()
+            for x in ast.walk(fn):
+                if isinstance(x, ast.BinOp) and isinstance(x.op, (ast.Add, ast.Sub, ast.Mult, ast.Mod, ast.FloorDiv)):
+                    for s_ in (x.left, x.right):
+                        if isinstance(s_, ast.Name) and s_.id in params:
+                            other = x.right if s_ is x.left else x.left
+                            if not isinstance(other, (ast.Constant,)) or isinstance(other.value, (int, float)):
+                                if not (isinstance(other, ast.Constant) and isinstance(other.value, str)) and not isinstance(other, (ast.List, ast.JoinedStr)):
+                                    numeric.add(s_.id)
+                if isinstance(x, ast.Compare):
+                    for s_ in [x.left] + list(x.comparators):
+                        if isinstance(s_, ast.Name) and s_.id in params and any(isinstance(o, (ast.Lt, ast.LtE, ast.Gt, ast.GtE)) for o in x.ops):
+                            numeric.add(s_.id)
+                if isinstance(x, ast.Subscript):
+                    for s_ in ast.walk(x.slice):
+                        if isinstance(s_, ast.Name) and s_.id in params:
+                            numeric.add(s_.id)
+                if isinstance(x, ast.Call) and (call_name(x) or "").split(".")[-1] in ("range", "randint", "seed", "insert", "delete", "zeros", "eye", "RandomState", "default_rng"):
+                    for a in x.args:
+                        if isinstance(a, ast.Name) and a.id in params:
+                            numeric.add(a.id)
+            # a parameter whose name says it is a number
+            numeric |= {p_ for p_ in params if any(k in p_ for k in ("position", "index", "seed", "_idx", "qubit", "register", "n_", "outcome", "determinism", "depth", "count"))
+                        and not p_.endswith(("_type", "_list", "_types", "_map", "_mapping"))}
+            for x in ast.walk(fn):
+                bad = None
+                if isinstance(x, ast.BoolOp) and isinstance(x.op, ast.Or) and isinstance(x.values[0], ast.Name) and x.values[0].id in numeric:
+                    bad = (x, x.values[0].id)
+                if isinstance(x, (ast.If, ast.IfExp)):
+                    t = x.test
+                    if isinstance(t, ast.UnaryOp) and isinstance(t.op, ast.Not) and isinstance(t.operand, ast.Name) and t.operand.id in numeric:
+                        bad = (t, t.operand.id)
+                    if isinstance(t, ast.Name) and t.id in numeric:
+                        bad = (t, t.id)
+                if bad:
+                    hits += 1
+                    node, pn = bad
+                    ctx.touch(m, fn)
+                    ctx.fail("falsy.zero", m, node,
+                             f"{qualname(fn)} tests the truthiness of its numeric parameter `{pn}` (`{short(node, 50)}`): the valid value 0 is treated as "
+                             f"'not given' and replaced by the fallback", func=qualname(fn), construct=f"{qualname(fn)}: truthiness of numeric parameter {pn}")
+    if scanned == 0:
+        raise AnalysisError("falsy.zero: nothing scanned")
+    if hits == 0:
+        ctx.ok_abstract("falsy.zero", f"no truthiness test of a numeric parameter in {scanned} functions of {len(rels)} module(s)")
